@@ -444,11 +444,11 @@ def _np_min(kind, a, **kw):
 _reduction('np_sum', ALLK, lambda mpc, a, **kw: mpc.np_sum(a, **kw), lambda k, a, **kw: np.sum(a, **kw), lambda mpc, xs: mpc.sum(xs),
            keepdims_ok=True, lean_name='sum')
 _reduction('np_prod', ['int', 'fxp', 'f11', 'f101', 'fM'], lambda mpc, a, **kw: mpc.np_prod(a, **kw), lambda k, a, **kw: np.prod(a, **kw),
-           lambda mpc, xs: mpc.prod(xs), mode='tiny', maxsize=12, tol=64 * ULP, min1=True, lean_name='sum')
+           lambda mpc, xs: mpc.prod(xs), mode='tiny', maxsize=12, tol=64 * ULP, lean_name='sum')
 _reduction('np_all', ['int', 'f101'], lambda mpc, a, **kw: mpc.np_all(a, **kw), lambda k, a, **kw: np.prod(a, **kw),
-           lambda mpc, xs: mpc.all(xs), mode='bits', min1=True, lean_name='sum')
+           lambda mpc, xs: mpc.all(xs), mode='bits', lean_name='sum')
 _reduction('np_any', ['int', 'f101'], lambda mpc, a, **kw: mpc.np_any(a, **kw), lambda k, a, **kw: 1 - np.prod(1 - a, **kw),
-           lambda mpc, xs: mpc.any(xs), mode='bits', min1=True, lean_name='sum')
+           lambda mpc, xs: mpc.any(xs), mode='bits', lean_name='sum')
 _reduction('np_amin', ORD, lambda mpc, a, **kw: mpc.np_amin(a, **kw), lambda k, a, **kw: np.min(a, **kw), lambda mpc, xs: mpc.min(xs),
            keepdims_ok=True, min1=True, lean_name='sum')
 _reduction('np_amax', ORD, lambda mpc, a, **kw: mpc.np_amax(a, **kw), lambda k, a, **kw: np.max(a, **kw), lambda mpc, xs: mpc.max(xs),
@@ -1787,6 +1787,40 @@ def _x_fixed_det_swap(rng, kind, force):
         return [S(np.linalg.det(S.field.array(a.copy()))), S(np.linalg.det(S.field.array(np.array([[0, 0, 1], [1, 0, 0], [0, 1, 0]], dtype=object))))]
     return {'inputs': {'a': a}, 'call': call, 'ref': lambda P: [np.array(10, dtype=object), np.array(1, dtype=object)],
             'desc': 'np.linalg.det over GF(11) of [[0,1],[1,0]] and of a 3-cycle', 'key': 'x_fixed_det_swap'}
+
+
+@directed('x_fixed_f256_mul_mix32_64bit', 'f256')
+def _x_fixed_f256_mix(rng, kind, force):
+    """GF(2^8) array product under --mix32-64bit (repo fix bf48baa: received input shares kept int entries)"""
+    a = np.array([7, 3], dtype=object)
+    b = np.array([9, 5], dtype=object)
+    return {'inputs': {'a': a, 'b': b}, 'call': lambda mpc, S, X: X['a'] * X['b'],
+            'ref': lambda P: np.array([_gf256_mul(7, 9), _gf256_mul(3, 5)], dtype=object), 'case': {'mix32_64bit': True},
+            'desc': 'GF(2^8) arrays [7,3] * [9,5] with --mix32-64bit', 'key': 'x_fixed_f256_mix'}
+
+
+@directed('x_fixed_empty_reductions', 'int')
+def _x_fixed_empty_red(rng, kind, force):
+    """np_prod / np_all / np_any over an empty axis (repo fixes a91215f, 4557617)"""
+    a = np.zeros((0, 3), dtype=object)
+    b = np.zeros((0, 1, 2), dtype=object)
+
+    def call(mpc, S, X):
+        return [mpc.np_prod(X['a'], axis=0), mpc.np_all(X['a']), mpc.np_any(X['a'], axis=0), mpc.np_all(X['b'], axis=(1,)),
+                mpc.np_prod(X['b'], axis=(0, 1))]
+    return {'inputs': {'a': a, 'b': b}, 'call': call,
+            'ref': lambda P: [np.ones(3, dtype=object), np.array(1, dtype=object), np.zeros(3, dtype=object), np.ones((0, 2), dtype=object),
+                              np.ones(2, dtype=object)],
+            'desc': 'np_prod/np_all/np_any over empty axes of a[0,3], b[0,1,2]', 'key': 'x_fixed_empty_red'}
+
+
+@directed('x_fixed_fxp_zero_size', 'fxp')
+def _x_fixed_fxp0(rng, kind, force):
+    """zero-size secure fixed-point arrays (repo fix e174957: the constructor raised ValueError)"""
+    a = np.zeros((0, 2))
+    return {'inputs': {'a': a}, 'call': lambda mpc, S, X: [X['a'] + X['a'], mpc.np_sum(X['a'], axis=0), mpc.np_prod(X['a'], axis=0)],
+            'ref': lambda P: [a + a, np.zeros(2), np.ones(2)], 'desc': 'SecFxp array of shape (0,2): a+a, sum, prod over axis 0',
+            'key': 'x_fixed_fxp0'}
 
 
 @directed('x_fixed_divide_scalar', 'f101')
